@@ -18,6 +18,16 @@
 (*         signals; "leaf" = also the signals of the first leaf instance;    *)
 (*         "all" = also those of every leaf instance (convert() names ports  *)
 (*         by their attribute name only, so equal names meet)                *)
+(*   attrs synthesis attributes (audit extension, default <<>> = none) put as *)
+(*         ONE Python set on every own signal of Top, every leaf signal and  *)
+(*         every instance: <<word>> = translated attribute (a string, looked *)
+(*         up in the platform's attr_translate), <<name, value>> = platform- *)
+(*         dependent attribute emitted as is.  A set of >= 2 attributes is    *)
+(*         iterated in PYTHONHASHSEED order; only the sorted() of            *)
+(*         _generate_attribute makes the emitted (* a, b *) reproducible.    *)
+(*   xlate TRUE = convert() is called with a platform-like attr_translate    *)
+(*         dictionary (the default DummyAttrTranslate drops every translated *)
+(*         attribute, so without it only <<name, value>> attributes appear)  *)
 (*                                                                           *)
 (* Corners are enumerated always; the product space is sampled by decoding   *)
 (* raw entropy words supplied by the harness from VERIF_SEED.                *)
@@ -30,6 +40,8 @@ Mems  == << "mem", "mem_1", "x", "reg", "m" >>
 Insts == << "", "x", "x_1", "PRIM_1", "reg", "u" >>
 Binds == << "attr", "loop", "anon" >>
 Ios   == << "top", "leaf", "all" >>
+AttrAlpha == << <<"keep">>, <<"no_retiming">>, <<"async_reg">>, <<"mr_ff", "true">>, <<"dont_touch", "true">>,
+               <<"a", "1">>, <<"b", "2">> >>
 
 SeqRange(q) == {q[i] : i \in DOMAIN q}
 SeqsUpTo(S, lo, hi) == UNION {[1..k -> S] : k \in lo..hi}
@@ -44,10 +56,13 @@ IsShape(s) ==
   /\ s.tov \in SeqsUpTo(SeqRange(Ovs), 0, 3)
   /\ s.mems \in SeqsUpTo(SeqRange(Mems), 0, 2)
   /\ s.insts \in SeqsUpTo(SeqRange(Insts), 0, 2)
+  /\ s.attrs \in SeqsUpTo(SeqRange(AttrAlpha), 0, 3)
+  /\ s.xlate \in BOOLEAN
 
 Shape(leaf, lov, lrel, depth, fan, bind, ios, top, tov, mems, insts) ==
   [leaf |-> leaf, lov |-> lov, lrel |-> lrel, depth |-> depth, fan |-> fan, bind |-> bind, ios |-> ios,
-   top |-> top, tov |-> tov, mems |-> mems, insts |-> insts]
+   top |-> top, tov |-> tov, mems |-> mems, insts |-> insts, attrs |-> <<>>, xlate |-> FALSE]
+WithAttrs(s, a, x) == [s EXCEPT !.attrs = a, !.xlate = x]
 
 (* hand-picked corners of the space: the situations the property statement names *)
 Corners == <<
@@ -69,7 +84,16 @@ Corners == <<
   Shape(<<"x">>, "PRIM", FALSE, 0, 1, "attr", "top", <<"x_1">>, <<"PRIM_1">>, <<"x">>, <<"", "">>),
   Shape(<<"x">>, "", FALSE, 0, 1, "attr", "top", <<"x", "x_1">>, <<"x">>, <<"x", "reg">>, <<"x", "reg">>),
   \* clock names
-  Shape(<<"y">>, "sys_clk", FALSE, 0, 2, "attr", "leaf", <<"y">>, <<"sys_clk">>, <<>>, <<>>)
+  Shape(<<"y">>, "sys_clk", FALSE, 0, 2, "attr", "leaf", <<"y">>, <<"sys_clk">>, <<>>, <<>>),
+  \* several attributes on one signal / instance (ports, internal nets, instances), with and without translation
+  WithAttrs(Shape(<<"x", "y">>, "", FALSE, 0, 2, "attr", "leaf", <<"x", "a">>, <<"x_1">>, <<>>, <<"u">>),
+            << <<"keep">>, <<"no_retiming">>, <<"mr_ff", "true">> >>, TRUE),
+  WithAttrs(Shape(<<"y">>, "", FALSE, 1, 2, "loop", "top", <<"reg", "b">>, <<>>, <<"mem">>, <<"", "x">>),
+            << <<"a", "1">>, <<"b", "2">>, <<"dont_touch", "true">> >>, FALSE),
+  WithAttrs(Shape(<<"a">>, "", TRUE, 0, 1, "attr", "all", <<"y">>, <<"y">>, <<>>, <<"PRIM_1">>),
+            << <<"async_reg">>, <<"keep">>, <<"b", "2">> >>, TRUE),
+  WithAttrs(Shape(<<"b">>, "", FALSE, 0, 1, "anon", "leaf", <<"x_2">>, <<>>, <<>>, <<>>),
+            << <<"mr_ff", "true">>, <<"a", "1">> >>, FALSE)
 >>
 
 ASSUME CornersInSpace == \A i \in DOMAIN Corners : IsShape(Corners[i])
@@ -92,6 +116,12 @@ SampleShape(r) ==
         Words(r, 13, 0, 3, Attr), Words(r, 18, 0, 3, Ovs),
         Words(r, 23, 0, 2, Mems), Words(r, 27, 0, 2, Insts))
 
+(* the attribute fields use entropy words of their own (31..36), so the other fields of a sampled *)
+(* shape are what they were before the extension                                                   *)
+SampleShapeA(r) ==
+  IF W(r, 31) % 3 = 0 THEN WithAttrs(SampleShape(r), Words(r, 32, 2, 3, AttrAlpha), W(r, 36) % 2 = 0)
+  ELSE SampleShape(r)
+
 VARIABLES idx, shape
 vars == <<idx, shape>>
 
@@ -99,7 +129,7 @@ Init == \/ /\ idx \in DOMAIN Corners
            /\ shape = Corners[idx]
            /\ PrintT(<<"SHAPE", "corner", idx, shape>>)
         \/ /\ idx \in {1000 + i : i \in 1..Len(Rnd)}
-           /\ shape = SampleShape(Rnd[idx - 1000])
+           /\ shape = SampleShapeA(Rnd[idx - 1000])
            /\ PrintT(<<"SHAPE", "sample", idx, shape>>)
 Next == FALSE /\ UNCHANGED vars
 
